@@ -131,6 +131,9 @@ def build_part(ap, with_pages=False, late_structure=False, late_divs=False):
             cls = S.IncreasingLoudnessDirection if d["text"] == "crescendo" else S.DecreasingLoudnessDirection
             o = cls(d["text"], wedge=True, staff=d.get("staff"))
             part.add(o, d["t"], d["e"])
+        elif d.get("cls"):
+            o = getattr(S, d["cls"])(d["text"], staff=d.get("staff"))
+            part.add(o, d["t"])
         else:
             for o in parse_direction(d["text"]):
                 if isinstance(o, S.Tempo):
